@@ -14,6 +14,7 @@ CONSTANTS
   Fix = {"F18", "F20"}
   Mut = {}
   NoHist = FALSE
+  Swap = FALSE
   Shapes <- ShapesWide
   GenLen = 30
   RejW = 6
